@@ -10,7 +10,8 @@ use crate::ast::*;
 use crate::bridge::*;
 use crate::gen::{generate, GenCfg};
 use crate::pipeline::*;
-use crate::rng::fnv64;
+use crate::layout::layout_type;
+use crate::rng::{fnv64, Rng};
 use crate::vals::*;
 
 fn substitute(prog: &Program, args: &WMap) -> Program {
@@ -38,8 +39,52 @@ pub fn run(cx: &mut Ctx) {
     }
 }
 
+/// One parameter name written at two places: fine at one type (reported once), rejected at two
+/// different types - also when the two types have the same layout.
+fn param_reuse(cx: &mut Ctx, rng: &mut Rng) {
+    let d = rng.below(3);
+    let t1 = random_ty(rng, d, 8);
+    let same_layout: Vec<Ty> = cast_variants(&t1).into_iter().filter(|t| *t != t1 && layout_type(t) == layout_type(&t1)).collect();
+    let other_shape = if t1 == Ty::U(8) { Ty::U(16) } else { Ty::U(8) };
+    let mut cases: Vec<(Ty, bool, &str)> = vec![(t1.clone(), true, "the same type twice"), (other_shape, false, "two types of different shape")];
+    if !same_layout.is_empty() {
+        cases.push((rng.pick(&same_layout).clone(), false, "two different types of the same layout"));
+    }
+    for (t2, ok, what) in cases {
+        for in_function in [false, true] {
+            let text = if in_function {
+                format!("fn f() -> {} {{\n    param::X\n}}\n\nfn main() {{\n    let a: {} = param::X;\n    let b: {} = f();\n}}\n", render_ty(&t2), render_ty(&t1), render_ty(&t2))
+            } else {
+                format!("fn main() {{\n    let a: {} = param::X;\n    let b: {} = param::X;\n}}\n", render_ty(&t1), render_ty(&t2))
+            };
+            cx.report.evaluations += 1;
+            let sig = format!("c12-reuse:{}:{}:{in_function}", render_ty(&t1), render_ty(&t2));
+            match (new_template(&text), ok) {
+                (Outcome::Ok(tpl), true) => {
+                    let ps: Vec<(String, String)> = tpl.parameters().iter().map(|(n, t)| (n.to_string(), render_ty(&from_sim_ty(t)))).collect();
+                    if ps != vec![("X".to_string(), render_ty(&t1))] {
+                        cx.report.violation(json!({"kind": "parameters", "what": format!("param::X used twice at {}: parameters() = {ps:?}", render_ty(&t1)), "program": text, "signature": sig}));
+                    } else {
+                        cx.report.count("param_reuse_accepted", 1);
+                    }
+                }
+                (Outcome::Err(_), false) => cx.report.count("param_reuse_rejected", 1),
+                (o, _) => {
+                    cx.report.violation(json!({"kind": "parameters", "what": format!("param::X written at {what} ({} and {}): {} (should be accepted: {ok})", render_ty(&t1), render_ty(&t2), o.map(|_| ()).brief()),
+                        "program": text, "signature": sig}));
+                }
+            }
+            cx.report.nontrivial.insert(fnv64(text.as_bytes()));
+        }
+    }
+}
+
 fn one_program(cx: &mut Ctx, i: u64) {
     let mut rng = cx.rng(&[i]);
+    if i % 10 == 3 {
+        param_reuse(cx, &mut rng);
+        return;
+    }
     let mut cfg = GenCfg::default();
     cfg.max_params = 1 + (i % 4) as usize;
     cfg.max_witnesses = 3;
